@@ -330,6 +330,11 @@ func sprint(fr *frame, args []value, ln bool) value {
 // fwrite writes s to the io.Writer w by calling its Write method.
 func fwrite(fr *frame, w value, s value) value {
 	itf := w.(iface)
+	// os.Stderr / os.Stdout are not initialised in the engine (package os init is skipped):
+	// writes to an *os.File are discarded
+	if itf.t != nil && itf.t.String() == "*os.File" {
+		return tuple{strLen(s), iface{}}
+	}
 	b := strBytes(s)
 	buf := make([]value, len(b))
 	copy(buf, b)
